@@ -45,7 +45,7 @@ def main():
             thms.append((f'{pid}_{nm}', full, nm))
     coquelicot = 'Coquelicot' in imports
     imports = [i for i in imports if i != 'Coquelicot']
-    out.append('From Coq Require Import PrimFloat.\nFrom Coq Require Import ZArith List Bool Reals Lra Permutation.\n' + ('From Coquelicot Require Import Coquelicot.\n' if coquelicot else '') +
+    out.append('From Coq Require Import PrimFloat.\nFrom Coq Require Import ZArith List Bool Reals Lra Permutation Sorted.\n' + ('From Coquelicot Require Import Coquelicot.\n' if coquelicot else '') +
                'From BZ Require Import Base.Ops ' + ' '.join(imports) + ' ' + ' '.join(mods) + '.\nImport ListNotations.\nOpen Scope R_scope.\n')
     for t, full, nm in thms:
         out.append(f'Theorem {t} :\n  {full}.\nProof. exact {nm}. Qed.')
